@@ -26,6 +26,9 @@ pub struct C20 {
     pub char_grams: u8,
     pub queries: Vec<String>,
     pub normalized_measure: bool,
+    /// the path the dictionary is saved to already holds a (longer) file of an earlier run
+    #[serde(default)]
+    pub stale_output: bool,
 }
 
 #[derive(Clone, Debug, PartialEq)]
@@ -247,6 +250,7 @@ impl Scenario for C20 {
             char_grams,
             queries: vec![],
             normalized_measure: rng.chance(0.3),
+            stale_output: false,
         };
         let v = reference_counts(&sc).len();
         sc.max_size = match rng.below(8) {
@@ -279,6 +283,7 @@ impl Scenario for C20 {
             };
             sc.queries.push(q);
         }
+        sc.stale_output = rng.chance(0.3);
         sc
     }
 
@@ -298,6 +303,11 @@ impl Scenario for C20 {
 
     fn shrink(&self) -> Vec<Self> {
         let mut v = vec![];
+        if self.stale_output {
+            let mut c = self.clone();
+            c.stale_output = false;
+            v.push(c);
+        }
         if self.files.len() > 1 {
             for i in 0..self.files.len() {
                 let mut c = self.clone();
@@ -414,6 +424,11 @@ impl Scenario for C20 {
             let sc = self.clone();
             let paths2 = paths.clone();
             let save_path = dir.path(&format!("dict{pi}.txt"));
+            if self.stale_output {
+                let stale: String = (0..300).map(|i| format!("stale{i}\t7\n")).collect();
+                std::fs::write(&save_path, stale).expect("write stale dictionary file");
+                stats.fault("output_path_holds_a_longer_file_of_an_earlier_run");
+            }
             let t = *t;
             let r = run_process(&spec, move || {
                 let res = Dictionary::create(
